@@ -22,7 +22,7 @@ PROPS = {
         not_covered='vectorisation wrappers, float/complex arithmetic values, int()/rational()/float() conversion builtins',
     ),
     'C03': dict(
-        units=['chain'],
+        units=['chain'], kani='quick',
         not_covered='that evaluate() feeds new/give/finish in order and evaluates each operand once; the one-operator fast path and ChainSection; try_chain tables of the builtins',
     ),
     'C06': dict(
@@ -55,7 +55,7 @@ PROPS = {
         not_covered='pattern matching, switch, destructuring, annotation enforcement on assignment paths, satisfying types',
     ),
     'C10': dict(
-        units=['index'],
+        units=['index'], kani='thorough',
         not_covered='index/slice_seq/set_index and the take/drop/... builtins that call these kernels; stream indexing by iteration',
     ),
 }
